@@ -85,7 +85,7 @@ Definition req_prop (eng : engine) (tbl : list sroute) (o : reqobs) : bool :=
 (* ---- finding guards, per request: the guards of the theorems (C03/Proofs.v, C03/ProofsTree.v),
         evaluated on the input and on the routes the model's own trace consults *)
 
-Definition g_call (fx1 fx2 fx4 fx6 fx7 : bool) (eng : engine) (tbl : list sroute) (q : request) (k : call) : list Z :=
+Definition g_call (fx1 fx2 fx4 fx6 : bool) (fx7 : dec) (eng : engine) (tbl : list sroute) (q : request) (k : call) : list Z :=
   match nth_error tbl (k_vid k) with
   | None => []
   | Some s =>
@@ -102,12 +102,12 @@ Definition g_call (fx1 fx2 fx4 fx6 fx7 : bool) (eng : engine) (tbl : list sroute
         (4%Z, guard_F4 fx4 (rl_methods d));
         (6%Z, on_params (guard_F6 fx6) (rl_slash d) q names segs ps);
         (7%Z, on_params (guard_F7 fx7) (rl_slash d) q names segs ps);
-        (8%Z, on_params guard_F8 (rl_slash d) q names segs ps)
+        (8%Z, on_params (guard_F8 fx7) (rl_slash d) q names segs ps)
       ]
     end
   end.
 
-Definition g_req (fx1 fx2 fx4 fx5 fx6 fx7 : bool) (eng : engine) (es : list centry) (t : tree) (tbl : list sroute) (q : request)
+Definition g_req (fx1 fx2 fx4 fx5 fx6 : bool) (fx7 : dec) (eng : engine) (es : list centry) (t : tree) (tbl : list sroute) (q : request)
            (mcalls : list call) (mout : outcome) : list Z :=
   concat (map (g_call fx1 fx2 fx4 fx6 fx7 eng tbl q) mcalls) ++
   guards [ (5%Z, negb fx5 && guard_F5 fx1 fx2 fx6 fx7 eng es t q) ] ++
@@ -122,7 +122,7 @@ Definition g_req (fx1 fx2 fx4 fx5 fx6 fx7 : bool) (eng : engine) (es : list cent
         guards [
           (3%Z, guard_F3 tbl s);
           (7%Z, req_guard_F7 fx7 sl q || caps_guard_F7 fx7 sl pairs);
-          (8%Z, caps_guard_F8 sl pairs)
+          (8%Z, caps_guard_F8 fx7 sl pairs)
         ]
       | None => []
       end
@@ -142,7 +142,7 @@ Definition loadobs_eqb (a b : loadobs) : bool :=
   | _, _ => false
   end.
 
-Definition check (fx1 fx2 fx3 fx4 fx5 fx6 fx7 : bool) (c : case) : verdict :=
+Definition check (fx1 fx2 fx3 fx4 fx5 fx6 : bool) (fx7 : dec) (c : case) : verdict :=
   let eng := eng_of (c_oracle c) in
   let tbl := flat_routes 0 (c_rules c) in
   (* the property on whatever the implementation served, also when the model refuses the rule set *)
